@@ -79,11 +79,11 @@ WIDTH_CLASS = [(50, 1), (62.5, 2), (75, 3), (87.5, 4), (100, 5), (112.5, 6), (12
 
 
 def n_cases(tier):
-    return 1000 if tier == "quick" else 16000
+    return 2000 if tier == "quick" else 30000
 
 
 def budget_s(tier):
-    return 150 if tier == "quick" else 1500
+    return 200 if tier == "quick" else 1800
 
 
 # =============================================================================================
